@@ -1153,6 +1153,18 @@ def run(run):
     check_edges(cx, pool_r, reads_r, list(edges_r.values()), lambda k: True)
     check_orders(cx, pool_r, reads_r, rng)
     # objects edited in place after their hash was taken
+    # (an exported transition must have the full shape; a run whose output holds a damaged record - seen once, in
+    #  a run beside three other JVMs - is repeated alone with one worker, which prints in a fixed order)
+    def _whole(e):
+        return isinstance(e, dict) and all(k in e for k in ("pre", "path", "op", "post")) \
+            and isinstance(e["op"], dict) and all(k in e["op"] for k in ("name", "i", "e", "x"))
+    damaged = [e for e in res_e.records("EDGE") if not _whole(e)]
+    if damaged:
+        run.drift("damaged-export-record", str(damaged[0])[:300])
+        res_e = M.run_tlc("ValEdit", "ValEdit_quick" if quick else "ValEdit_thorough", coverage=False, timeout=3000,
+                          workers=1, heap="3g")
+        if any(not _whole(e) for e in res_e.records("EDGE")):
+            raise MachineryError("ValEdit exports records of an unexpected shape: " + str(damaged[0])[:300])
     run.add_tlc(res_e, "ValEdit: values with a history")
     nedit, nedrift, edit_ops = check_edits(cx, res_e, lambda k: k % 4 == 3)
     if nedit == 0:
